@@ -98,7 +98,7 @@ class Path:
     def check(self, *extra, budget=None):
         t0 = time.time()
         self.solver.set("rlimit", budget or RLIMIT_PROVE)
-        r = _guarded(lambda: self.solver.check(*extra), 3.0 * TIMEOUT_MS / 1000.0)
+        r = _guarded(lambda: self.solver.check(*extra), (0.75 if budget else 3.0) * TIMEOUT_MS / 1000.0)
         self.solver_time += time.time() - t0
         return r
 
@@ -863,7 +863,7 @@ def cover(name):
     return r == z3.sat
 
 
-def prove(name, cond, detail=None):
+def prove(name, cond, detail=None, effort="full"):
     """Generate and discharge the obligation  pc => cond ; then assume cond."""
     p = cur()
     ob = Obligation(name)
@@ -884,7 +884,8 @@ def prove(name, cond, detail=None):
         except Exception:  # the slicing front end is an optimisation only
             r = None
         if r != z3.unsat:
-            r = p.check(z3.Not(t))
+            # effort "low": the caller (a failed lemma) has already spent its budget on the focused query
+            r = p.check(z3.Not(t), budget=RLIMIT_PROVE // 4) if effort == "low" else p.check(z3.Not(t))
         else:
             ob.backend = "z3-slice"
         if r == z3.unsat:
@@ -904,7 +905,7 @@ def prove(name, cond, detail=None):
             if os.environ.get("PYVC_DUMP_DIR"):
                 with open(os.path.join(os.environ["PYVC_DUMP_DIR"], re.sub(r"[^A-Za-z0-9_.]+", "_", name)[-120:] + ".smt2"), "w") as fh:
                     fh.write(ob.smt2)
-            r2 = _try_other_backends(ob.smt2)
+            r2 = _try_other_backends(ob.smt2) if effort != "low" else None
             if r2 is not None:
                 ob.status, ob.backend = r2
     ob.time = time.time() - t0
@@ -914,7 +915,7 @@ def prove(name, cond, detail=None):
     return ob.status == "discharged"
 
 
-def lemma(name, hyps, goal):
+def lemma(name, hyps, goal, witness=None):
     """Obligation `goal` proved from an explicit list of facts (manual slicing for hard arithmetic): every
     hypothesis must already be on the path condition or is proved first as its own obligation; then
     hyps => goal is checked in isolation.  If that fails the obligation falls back to the ordinary
@@ -956,7 +957,76 @@ def lemma(name, hyps, goal):
     if os.environ.get("PYVC_DUMP_DIR"):
         with open(os.path.join(os.environ["PYVC_DUMP_DIR"], re.sub(r"[^A-Za-z0-9_.]+", "_", name)[-120:] + ".lemma.smt2"), "w") as fh:
             fh.write(_to_smt2(ha + [z3.Not(ga)]))
-    return prove(name, goal)
+    cand = None
+    if witness:
+        # a model of (listed hypotheses and not goal) is only a CANDIDATE counterexample (the rest of the path condition
+        # is ignored): it is handed to the replay, which decides on the real code
+        cand = _candidate(ha, ga, witness)
+    ok = prove(name, goal, effort="low" if cand is not None else "full")
+    if not ok and cand is not None:
+        ob = p.obligations[-1]
+        if ob.status == "unknown":
+            ob.model = {"candidate_from_lemma": cand}
+            ob.note = "candidate counterexample of the lemma's hypotheses only; decided by replay on the real code"
+    return ok
+
+
+def _candidate(ha, ga, witness):
+    """a model of the real-arithmetic content of (hyps and not goal): integer index equalities among the hypotheses are
+    applied as rewrites, real-valued uninterpreted applications are purified, conjuncts that still mention integers are
+    dropped (so this is weaker than the lemma: a CANDIDATE only)"""
+    forms = list(ha) + [z3.Not(ga)]
+    rew = []
+    for h in ha:
+        if z3.is_eq(h) and h.arg(0).sort() == z3.IntSort() and z3.is_app(h.arg(0)) and h.arg(0).num_args() > 0:
+            rew.append((h.arg(0), h.arg(1)))
+    wit = {k: (v.t if isinstance(v, SV) else v) for k, v in witness.items()}
+    wit_terms = {k: _abs_lambdas(t) for k, t in wit.items() if z3.is_expr(t)}
+    for _ in range(3):
+        if rew:
+            forms = [z3.substitute(f, *rew) for f in forms]
+            wit_terms = {k: z3.substitute(t, *rew) for k, t in wit_terms.items()}
+    apps = {}
+
+    def collect(t, seen):
+        i = t.get_id()
+        if i in seen:
+            return
+        seen.add(i)
+        if z3.is_app(t):
+            if t.num_args() > 0 and t.decl().kind() == z3.Z3_OP_UNINTERPRETED and t.sort() == z3.RealSort():
+                apps.setdefault(t.sexpr(), t)
+                return
+            for c in t.children():
+                collect(c, seen)
+
+    seen = set()
+    for f in forms + list(wit_terms.values()):
+        collect(f, seen)
+    subs = [(t, z3.Real("cand!%d" % k)) for k, t in enumerate(apps.values())]
+    cache = {}
+    pure = [z3.substitute(f, *subs) if subs else f for f in forms]
+    pure = [f for f in pure if not _has_int_var(f, cache)]
+    if not pure or _has_int_var(pure[-1], cache) is True:
+        pass
+    s = z3.Solver()
+    s.set("timeout", max(2000, TIMEOUT_MS // 2))
+    s.add(*pure)
+    r = _guarded(lambda: s.check(), max(2.0, TIMEOUT_MS / 2000.0))
+    if r != z3.sat:
+        return None
+    m = s.model()
+    out = {}
+    for k, v in wit.items():
+        if not z3.is_expr(v):
+            out[k] = v
+            continue
+        t = z3.substitute(wit_terms[k], *subs) if subs else wit_terms[k]
+        try:
+            out[k] = _pyval(m.eval(t, model_completion=True))
+        except Exception as e:  # pragma: no cover
+            out[k] = "?%r" % (e,)
+    return out
 
 
 def _symbols(t, cache):
@@ -1448,6 +1518,9 @@ def explore(name, body, max_paths=4000, on_exception=None):
                 a["note"] = ob.note
             elif ob.status == "unknown" and a["status"] == "discharged":
                 a["status"] = "unknown"
+                a["model"] = ob.model  # a lemma-level candidate counterexample, if any (decided by replay)
+                a["path"] = ob.path
+                a["note"] = ob.note
     for a in agg.values():
         a["backend"] = sorted(a["backend"])
         a["time"] = round(a["time"], 4)
